@@ -110,11 +110,10 @@ theorem listVertexLabels_mem (h : Inv m f a) (g l : String) :
     | some v =>
       refine ⟨(.term (labelField g "v") z.label, v), mem_of_alGet hv, ?_⟩
       have hin : z ∈ verticesWithLabel m g z.label := (vwl_mem h g z.label z).2 ⟨hr, rfl⟩
-      have hne : (verticesWithLabel m g z.label).isEmpty = false := by
-        cases hc : verticesWithLabel m g z.label with
-        | nil => rw [hc] at hin; simp at hin
-        | cons _ _ => rfl
-      simp [hne, hl]
+      have hne : ¬ verticesWithLabel m g z.label = [] := by
+        intro hc; rw [hc] at hin; simp at hin
+      subst hl
+      simp [hne]
 
 /-! ### edges -/
 
@@ -176,10 +175,9 @@ theorem listEdgeLabels_mem (h : Inv m f a) (g l : String) :
     | some v =>
       refine ⟨(.term (labelField g "e") z.label, v), mem_of_alGet hv, ?_⟩
       have hin : z ∈ edgesWithLabelIdx m g z.label := (ewl_mem h g z.label z).2 ⟨hr, rfl⟩
-      have hne : (edgesWithLabelIdx m g z.label).isEmpty = false := by
-        cases hc : edgesWithLabelIdx m g z.label with
-        | nil => rw [hc] at hin; simp at hin
-        | cons _ _ => rfl
-      simp [hne, hl]
+      have hne : ¬ edgesWithLabelIdx m g z.label = [] := by
+        intro hc; rw [hc] at hin; simp at hin
+      subst hl
+      simp [hne]
 
 end Grip.Props.C03.Lemmas
